@@ -8,7 +8,7 @@
                      and id; an open leaf is replaced by a valid tree of the grammar);
    * reach g A B   : B occurs in an alternative of A or of a nonterminal reachable from A;
    * tv_le         : information order on verdicts, UU below TT and FF.                       *)
-From ISLA Require Import Eval3 EvalFacts GrammarFacts FuzzFacts.
+From ISLA Require Import Eval3 EvalFacts GrammarFacts FuzzFacts PathFacts TreeFacts.
 From Coq Require Import Lia ZArith.
 
 (* ------------------------------------------------------------------ *)
@@ -264,3 +264,140 @@ Proof.
   intros [[[[[->| ->]| ->]| ->]| ->]| ->];
     destruct args as [|[p|s] [|[q|s'] [|[r|s''] [|[u|s'''] [|x xs]]]]]; reflexivity.
 Qed.
+
+(* ------------------------------------------------------------------ *)
+(* the full statement, and its refutation on the faithful model        *)
+(* ------------------------------------------------------------------ *)
+Definition verdict_stable_stmt : Prop :=
+  forall g t t' cst f v,
+    wf_tree g t -> compl g t t' -> is_openT t' = false -> uniq_ids t' ->
+    m3_evaluate g t cst f = Ok v -> v <> UU -> m3_evaluate g t' cst f = Ok v.
+
+Ltac compl_tac :=
+  repeat (first [ apply cp_node | apply Forall2_cons | apply Forall2_nil
+                | (apply cp_open; [reflexivity | reflexivity | apply wf_treeb_spec; vm_compute; reflexivity]) ]).
+
+(* SR: grammar {'<start>': ['<a>'], '<a>': ['x<a>', 'y']}, input 'xxy', cut at [(0,)], formula forall <a> v in start: direct_child(v, start); implementation: ('ok', 'TT') on the open tree, ('ok', 'FF') on the completion *)
+Definition SR_g : grammar := [([60;115;116;97;114;116;62]%N, [[[60;97;62]%N]]); ([60;97;62]%N, [[[120]%N; [60;97;62]%N]; [[121]%N]])].
+Definition SR_t : tree := (Node [60;115;116;97;114;116;62]%N 6%N false [(Node [60;97;62]%N 5%N true [])]).
+Definition SR_t' : tree := (Node [60;115;116;97;114;116;62]%N 6%N false [(Node [60;97;62]%N 5%N false [(Node [120]%N 0%N false []); (Node [60;97;62]%N 4%N false [(Node [120]%N 1%N false []); (Node [60;97;62]%N 3%N false [(Node [121]%N 2%N false [])])])])]).
+Definition SR_f : formula atom3 := lift3 (FForall (MkVar VBound [118]%N [60;97;62]%N) (InVar (MkVar VConst [115;116;97;114;116]%N [60;115;116;97;114;116;62]%N)) None (FSPred [100;105;114;101;99;116;95;99;104;105;108;100]%N [(PVar (MkVar VBound [118]%N [60;97;62]%N)); (PVar (MkVar VConst [115;116;97;114;116]%N [60;115;116;97;114;116;62]%N))])).
+(* NTH: grammar {'<start>': ['<list>'], '<list>': ['<item>', '<item>,<list>'], '<item>': ['<d>', '(<list>)'], '<d>': ['1', '2', '3']}, input '(1,2),3', cut at [(0, 0)], formula exists <item> i in start: (nth("2", i, start) and i = "3"); implementation: ('ok', 'TT') on the open tree, ('ok', 'FF') on the completion *)
+Definition NTH_g : grammar := [([60;115;116;97;114;116;62]%N, [[[60;108;105;115;116;62]%N]]); ([60;108;105;115;116;62]%N, [[[60;105;116;101;109;62]%N]; [[60;105;116;101;109;62]%N; [44]%N; [60;108;105;115;116;62]%N]]); ([60;105;116;101;109;62]%N, [[[60;100;62]%N]; [[40]%N; [60;108;105;115;116;62]%N; [41]%N]]); ([60;100;62]%N, [[[49]%N]; [[50]%N]; [[51]%N]])].
+Definition NTH_t : tree := (Node [60;115;116;97;114;116;62]%N 18%N false [(Node [60;108;105;115;116;62]%N 17%N false [(Node [60;105;116;101;109;62]%N 11%N true []); (Node [44]%N 12%N false []); (Node [60;108;105;115;116;62]%N 16%N false [(Node [60;105;116;101;109;62]%N 15%N false [(Node [60;100;62]%N 14%N false [(Node [51]%N 13%N false [])])])])])]).
+Definition NTH_t' : tree := (Node [60;115;116;97;114;116;62]%N 18%N false [(Node [60;108;105;115;116;62]%N 17%N false [(Node [60;105;116;101;109;62]%N 11%N false [(Node [40]%N 0%N false []); (Node [60;108;105;115;116;62]%N 9%N false [(Node [60;105;116;101;109;62]%N 3%N false [(Node [60;100;62]%N 2%N false [(Node [49]%N 1%N false [])])]); (Node [44]%N 4%N false []); (Node [60;108;105;115;116;62]%N 8%N false [(Node [60;105;116;101;109;62]%N 7%N false [(Node [60;100;62]%N 6%N false [(Node [50]%N 5%N false [])])])])]); (Node [41]%N 10%N false [])]); (Node [44]%N 12%N false []); (Node [60;108;105;115;116;62]%N 16%N false [(Node [60;105;116;101;109;62]%N 15%N false [(Node [60;100;62]%N 14%N false [(Node [51]%N 13%N false [])])])])])]).
+Definition NTH_f : formula atom3 := lift3 (FExists (MkVar VBound [105]%N [60;105;116;101;109;62]%N) (InVar (MkVar VConst [115;116;97;114;116]%N [60;115;116;97;114;116;62]%N)) None (FAnd [(FSPred [110;116;104]%N [(PStr [50]%N); (PVar (MkVar VBound [105]%N [60;105;116;101;109;62]%N)); (PVar (MkVar VConst [115;116;97;114;116]%N [60;115;116;97;114;116;62]%N))]); (FSmt (AStr false (SVar (MkVar VBound [105]%N [60;105;116;101;109;62]%N)) (SLit [51]%N)))])).
+Definition W_cst3 : var := (MkVar VConst [115;116;97;114;116]%N [60;115;116;97;114;116;62]%N).
+
+(* K_selfrec_open: an open leaf of the quantified, self-reachable type is not reported as a
+   potential match; the universal quantifier is TRUE on the open tree, FALSE on `xxy` *)
+Theorem selfrec_unstable_refuted :
+  wf_tree SR_g SR_t /\ compl SR_g SR_t SR_t' /\ is_openT SR_t' = false /\ uniq_ids SR_t' /\
+  m3_evaluate SR_g SR_t W_cst3 SR_f = Ok TT /\ m3_evaluate SR_g SR_t' W_cst3 SR_f = Ok FF /\
+  K_selfrec_open atom3 SR_g SR_t SR_f = true /\ K_nth_open atom3 SR_t SR_f = false.
+Proof.
+  split; [apply wf_treeb_spec; vm_compute; reflexivity|].
+  split; [unfold SR_t, SR_t'; compl_tac|].
+  split; [vm_compute; reflexivity|].
+  split; [apply uniq_idsb_spec; vm_compute; reflexivity|].
+  repeat split; vm_compute; reflexivity.
+Qed.
+
+(* K_nth_open: nth counts same-label nodes in pre-order; expanding an earlier open leaf shifts the
+   count.  The existential is TRUE on `<item>,3` (second <item> is "3") and FALSE on `(1,2),3` *)
+Theorem nth_unstable_refuted :
+  wf_tree NTH_g NTH_t /\ compl NTH_g NTH_t NTH_t' /\ is_openT NTH_t' = false /\ uniq_ids NTH_t' /\
+  m3_evaluate NTH_g NTH_t W_cst3 NTH_f = Ok TT /\ m3_evaluate NTH_g NTH_t' W_cst3 NTH_f = Ok FF /\
+  K_nth_open atom3 NTH_t NTH_f = true.
+Proof.
+  split; [apply wf_treeb_spec; vm_compute; reflexivity|].
+  split; [unfold NTH_t, NTH_t'; compl_tac|].
+  split; [vm_compute; reflexivity|].
+  split; [apply uniq_idsb_spec; vm_compute; reflexivity|].
+  repeat split; vm_compute; reflexivity.
+Qed.
+
+Theorem verdict_stable_refuted : ~ verdict_stable_stmt.
+Proof.
+  intro H. destruct selfrec_unstable_refuted as (Hw & Hc & Hcl & Hu & Ht & Hf & _).
+  specialize (H _ _ _ _ _ TT Hw Hc Hcl Hu Ht). rewrite Hf in H.
+  assert (E : Ok FF = Ok TT) by (apply H; discriminate). discriminate.
+Qed.
+
+(* ------------------------------------------------------------------ *)
+(* partial stability: the quantifier-free fragment over the six path predicates *)
+(* ------------------------------------------------------------------ *)
+Section PredFrag.
+  Variable A : Type.
+  Variable afree : A -> list var.
+  Variable aopen : A -> bool.
+  Variable aeval : A -> asg -> res TV.
+  Variable qmm qmm' : var -> path -> option mexpr -> asg -> path -> bool.
+  Variable reach' : str -> str -> bool.
+  Variable count_open : tree -> str -> Z -> res TV.
+
+  Fixpoint pfrag (f : formula A) : bool :=
+    match f with
+    | FSPred n args => path_only n && forallb (fun x => match x with PTree _ => false | _ => true end) args
+    | FNot h => pfrag h
+    | FAnd fs | FOr fs => forallb pfrag fs
+    | _ => false
+    end.
+
+  (* the two dictionaries bind the same variables to the same PATHS (the trees may differ: in a
+     completion the subtree at a path is the completed subtree) *)
+  Definition same_paths (a a' : asg) : Prop :=
+    forall v, option_map fst (dict_get a v) = option_map fst (dict_get a' v).
+
+  Lemma arg_inst_same ref ref' a a' x :
+    same_paths a a' -> match x with PTree _ => false | _ => true end = true ->
+    arg_inst ref a x = arg_inst ref' a' x.
+  Proof.
+    intros Hs Hx. destruct x as [v|s|t]; [|reflexivity|discriminate]. simpl.
+    specialize (Hs v). destruct (dict_get a v) as [[p s]|], (dict_get a' v) as [[p' s']|]; simpl in *;
+      try discriminate; [inversion Hs; reflexivity | reflexivity].
+  Qed.
+
+  Lemma mapM_arg_inst_same ref ref' a a' args :
+    same_paths a a' -> forallb (fun x => match x with PTree _ => false | _ => true end) args = true ->
+    mapM (arg_inst ref a) args = mapM (arg_inst ref' a') args.
+  Proof.
+    intros Hs. induction args as [|x args IH]; simpl; [reflexivity|]. intro H.
+    apply andb_true_iff in H as [Hx Hr]. rewrite (arg_inst_same ref ref' a a' x Hs Hx), (IH Hr). reflexivity.
+  Qed.
+
+  Theorem pred_frag_stable ref ref' f : forall a a',
+    pfrag f = true -> same_paths a a' ->
+    eval_legacy A afree aopen aeval qmm reach' count_open ref f a
+    = eval_legacy A afree aopen aeval qmm' reach' count_open ref' f a'.
+  Proof.
+    induction f as [x|n args|n args|h IH|fs IH|fs IH|v i m b IH|v i m b IH|v b IH|v b IH] using formula_ind';
+      intros a a' Hf Hs; simpl in Hf; try discriminate.
+    - apply andb_true_iff in Hf as [Hn Ha]. simpl. unfold eval_spred.
+      rewrite (mapM_arg_inst_same ref ref' a a' args Hs Ha).
+      destruct (mapM (arg_inst ref' a') args) as [l|e]; [|reflexivity].
+      rewrite (path_preds_tree_independent ref ref' n l Hn). reflexivity.
+    - simpl. rewrite (IH a a' Hf Hs). reflexivity.
+    - simpl. replace (map (fun g => eval_legacy A afree aopen aeval qmm reach' count_open ref g a) fs)
+        with (map (fun g => eval_legacy A afree aopen aeval qmm' reach' count_open ref' g a') fs); [reflexivity|].
+      apply map_ext_in. intros g Hg. rewrite Forall_forall in IH. rewrite forallb_forall in Hf.
+      symmetry. apply IH; auto.
+    - simpl. replace (map (fun g => eval_legacy A afree aopen aeval qmm reach' count_open ref g a) fs)
+        with (map (fun g => eval_legacy A afree aopen aeval qmm' reach' count_open ref' g a') fs); [reflexivity|].
+      apply map_ext_in. intros g Hg. rewrite Forall_forall in IH. rewrite forallb_forall in Hf.
+      symmetry. apply IH; auto.
+  Qed.
+End PredFrag.
+
+(* non-vacuity: a formula of the fragment and two dictionaries with the same paths *)
+Example pfrag_example :
+  pfrag atom3 (FAnd [FSPred s_before [PVar W_cst3; PVar W_cst3]; FNot (FSPred s_inside [PVar W_cst3; PVar W_cst3])]) = true
+  /\ same_paths [(W_cst3, ([], SR_t))] [(W_cst3, ([], SR_t'))].
+Proof. split; [reflexivity|]. intro v. simpl. destruct (var_eqb W_cst3 v); reflexivity. Qed.
+
+Example qmm3_none_example :
+  qmm3 NTH_g NTH_t [] (MkVar VBound [118]%N [60;100;62]%N) [] None [0;0] = true.
+Proof. vm_compute. reflexivity. Qed.
+
+Example reach_closed_example : reach_closedb NTH_g = true /\ reachb NTH_g [60;105;116;101;109;62]%N [60;105;116;101;109;62]%N = true.
+Proof. split; vm_compute; reflexivity. Qed.
